@@ -123,6 +123,31 @@ CLAIMED = {
    technique="TLA+ executable semantics (Prosser hide sets, conditional stack, 64-bit limb arithmetic) evaluated by TLC as exhaustive case tables "
              "and simulations; cases replayed through c2m -E with gcc -E as second oracle",
    design="DESIGN.md §4 C09, §3.9"),
+ "C10": dict(level="model_checking",
+   text="MIRModule.tla defines the abstract module syntax and a hole-filling constructor over the whole item/instruction/operand vocabulary "
+        "(all 10 item kinds, functions with blk/rblk/vararg/locals/hard-register globals, every operand kind incl. alias annotations); "
+        "MIRText.tla is the Output/Scan/Execute history machine (RoundTripId, TextFixpoint, Deterministic, SameRun). Every TLC-built module is "
+        "built through the API and, independently, from text rendered from the abstract module; a history is replayed into fresh contexts; "
+        "after every step the projection of the public structs must equal the abstract module (its text normal form after a scan), the writer "
+        "must return (crash/ASan = violation), all texts must be byte-identical, and MIRProg programs must give the specification's "
+        "observations in every copy.",
+   note="Items exhaustive at tiny bounds; single instructions exhaustive per operand position (thorough); simulation for combinations; finite "
+        "FP immediates, bss < 2^63, disjoint name pools; features with a listed defect are probed, reported once under their key and rewritten "
+        "out of the bulk until fixed. Two listed findings (string operand without NUL, label renumbering).",
+   technique="TLA+ constructor (TLC BFS + simulation) and I/O history machine replayed through API, scanner and writer with a projection dumper",
+   design="DESIGN.md §4 C10, §3.2, §3.8"),
+ "C11": dict(level="model_checking",
+   text="MIRBin.tla specifies the binary token grammar as a decoder that TLC evaluates on the real writer's bytes (after the real decompressor): "
+        "the decoded module must equal the abstract module and satisfy the writer obligations (shortest tags, canonical memory tag, "
+        "first-occurrence string numbering, zero long-double padding); MIRBin.Encode generates streams (label numbers and tag lengths across all "
+        "1..8-byte boundaries) that the real compressor and MIR_read* must turn into the same module; MIRText histories in mode bin (write/read "
+        "via callbacks and FILE*, output, execute) are replayed on modules with non-finite FP, embedded NULs, two-module contexts, sizes up to "
+        "3.5 compression buffers, and MIRProg programs: projections, texts, byte strings (two writes, rewrite after read, other caller padding) "
+        "and observations must coincide.",
+   note="TLC parses about 0.3 MB (quick) / 8 MB (thorough) of writer output, smallest streams first plus one stream over 2 buffers; streams "
+        "over budget are checked by round trip only; x86-64 long double layout assumed.",
+   technique="TLA+ format grammar evaluated by TLC on implementation output (direction B) + TLC-generated streams and histories replayed (direction A)",
+   design="DESIGN.md §4 C11, §3.8"),
  "C13": dict(level="model_checking",
    text="MIRLink.tla is an implementation-shaped machine (environment table, to-link queue, bindings of linked modules, redefinition "
         "permission) with an independent definition history in which BindLatest, RedefRejected, UndefinedReported, LocalBinding and "
